@@ -344,3 +344,20 @@ Proof.
   intros H. unfold parse, parse_with. rewrite (ceq_length q q' H). now apply parse_f_ci.
 Qed.
 End CaseInsensitive.
+
+(* strings.Fields commutes with ASCII lower-casing (used by C37 as well) *)
+Lemma flush_L cur : flush (L cur) = map L (flush cur).
+Proof. destruct cur; [reflexivity|]. rewrite L_cons. cbn [flush map]. now rewrite <- L_cons, L_rev. Qed.
+
+Lemma fields_go_L : forall l skip cur, fields_go (L l) skip (L cur) = map L (fields_go l skip cur).
+Proof.
+  induction l as [|b r IH]; intros skip cur.
+  - cbn [fields_go L map]. apply flush_L.
+  - rewrite L_cons. cbn [fields_go]. destruct skip as [|k]; [|apply IH].
+    rewrite <- L_cons, sp_len_L. destruct (sp_len (b :: r)) as [|k].
+    + rewrite <- L_cons. apply IH.
+    + rewrite map_app, flush_L. f_equal. apply (IH k []).
+Qed.
+
+Theorem fields_lower s : fields (L s) = map L (fields s).
+Proof. apply (fields_go_L s 0 []). Qed.
